@@ -310,7 +310,8 @@ def _run_cases(stream, cases, driver, summary, oracle_only=False):
         summary["oracle_cases"] += 1
         for sig, detail in fails:
             summary["oracle_fail_count"][sig] += 1
-            if len(summary["oracle_failures"]) < 200:
+            # keep a few examples per signature, so that a flood of known findings can never crowd out a new one
+            if sum(1 for f in summary["oracle_failures"] if f["signature"] == sig) < 3:
                 summary["oracle_failures"].append({"stream": stream.name, "signature": sig, "case": case, "impl": r, "detail": detail})
 
 
@@ -325,7 +326,9 @@ def merge_summary(a, b):
     for k in ("evaluations", "corr_cases", "corr_agreed", "disagreements_more", "oracle_cases", "harness_error_count"):
         a[k] += b[k]
     a["disagreements"] = (a["disagreements"] + b["disagreements"])[:50]
-    a["oracle_failures"] = (a["oracle_failures"] + b["oracle_failures"])[:400]
+    for f in b["oracle_failures"]:
+        if sum(1 for g in a["oracle_failures"] if g["signature"] == f["signature"]) < 3:
+            a["oracle_failures"].append(f)
     a["oracle_fail_count"].update(b["oracle_fail_count"])
     a["distribution"].update(b["distribution"])
     a["nontrivial_digests"] |= b["nontrivial_digests"]
@@ -521,7 +524,9 @@ def run_check(prop, tier, seed, replay=None):
         for s in streams:
             extra = run_stream(prop, s, seed, tier, workers, oracle_only=True,
                                factor=float(os.environ.get("VERIF_SEARCH_FACTOR", "3")), salt="|search")
-            total["oracle_failures"] = (total["oracle_failures"] + extra["oracle_failures"])[:400]
+            for f in extra["oracle_failures"]:
+                if sum(1 for g in total["oracle_failures"] if g["signature"] == f["signature"]) < 3:
+                    total["oracle_failures"].append(f)
             total["oracle_fail_count"].update(extra["oracle_fail_count"])
             total["oracle_cases"] += extra["oracle_cases"]
             total["evaluations"] += extra["evaluations"]
@@ -536,10 +541,11 @@ def run_check(prop, tier, seed, replay=None):
     known_hits = collections.Counter()
     unknown = []
     for f in total["oracle_failures"]:
-        if f["signature"] in open_sigs:
-            known_hits[f["signature"]] += 1
-        else:
+        if f["signature"] not in open_sigs:
             unknown.append(f)
+    for sig, n in total["oracle_fail_count"].items():
+        if sig in open_sigs:
+            known_hits[sig] = n
     # witnesses of open findings are replayed by the property module (mod.known_witnesses) as corpus cases
     violations = 0
     rc = 0
